@@ -285,6 +285,22 @@ def make_payload(seed, direction, idx, length, binary, fill):
     return out
 
 
+def echo_payload(direction, idx, length, binary, prev_body):
+    """A payload of exactly ``length`` octets: new unique tag + the body of an EARLIER message (repeated / cut to
+    fit), so that a compressor with context takeover back-references the earlier message.  Text stays valid
+    UTF-8 (a code point cut at the end is replaced by ASCII filler)."""
+    tag = make_tag(direction, idx)
+    n = length - len(tag)
+    assert n > 0 and prev_body
+    body = (prev_body * (n // len(prev_body) + 1))[:n]
+    if not binary:
+        body = body.decode("utf-8", errors="ignore").encode("utf-8")
+        body += b"a" * (n - len(body))
+    out = tag + body
+    assert len(out) == length
+    return out
+
+
 def tag_of(payload):
     m = TAG_RE.match(bytes(payload[:TAG_LEN]))
     return m.group(1).decode("ascii") if m else None
@@ -432,6 +448,11 @@ def selfcheck():
         raise AssertionError("an empty RSV1 payload is not a complete deflate block")
     except zlib.error:
         pass
+    for ln in (16, 17, 40, 300):
+        prev = make_payload(1, "s2c", 0, 37, False, "random")[TAG_LEN:]
+        e = echo_payload("s2c", 4, ln, False, prev)
+        e.decode("utf-8")
+        assert len(e) == ln and tag_of(e) == "S00004"
     for ln in (0, 1, 2, 3, 4, 6, 7, 8, 100, 65536):
         for binary in (True, False):
             for fill in ("random", "repeat", "mixed"):
